@@ -115,6 +115,7 @@ type Cluster struct {
 	Delivered     map[string]int // delivered calls per method
 	Calls         []string       // every delivered call, in order
 	EventBatches  int
+	AcksDelivered int // checkpoint acknowledgements (operators and source runners) delivered to the job so far
 	Kills         int
 	DeadCalls     int // delivered calls that failed because an endpoint is dead (since the harness last reset it)
 	Ticks         int
@@ -235,12 +236,14 @@ func (p *jobProxy) OperatorCheckpointComplete(ctx context.Context, req *snapshot
 	if err := p.cl.call(p.from, "job", fmt.Sprintf("OperatorCheckpointComplete(%s,%d)", req.OperatorId, req.CheckpointId)); err != nil {
 		return err
 	}
+	p.cl.AcksDelivered++
 	return p.cl.Job.HandleOperatorCheckpointComplete(ctx, req)
 }
 func (p *jobProxy) OnSourceRunnerCheckpointComplete(ctx context.Context, req *jobpb.SourceRunnerCheckpointCompleteRequest) error {
 	if err := p.cl.call(p.from, "job", fmt.Sprintf("SourceRunnerCheckpointComplete(%s,%d)", req.SourceRunnerId, req.CheckpointId)); err != nil {
 		return err
 	}
+	p.cl.AcksDelivered++
 	return p.cl.Job.HandleSourceRunnerCheckpointComplete(ctx, req)
 }
 func (p *jobProxy) NotifySplitsFinished(ctx context.Context, srID string, splitIDs []string) error {
